@@ -156,6 +156,9 @@ def check_module(n0, n1, n2, m0, reopen, topsel, boost, hollow):
     top = [''] + c03_census.top_path(names, topsel)
     body = pipe.pybind_body(text, top=top, boost=bool(boost))
     problems = obligations(text, body, declared, ["T"])
+    # a C++ variable defined twice (a submodule created once per block of a re-opened namespace) or used before its
+    # definition does not compile either
+    problems += scope_problems(body)
     if problems:
         return _fail(text=text, top=top, problems=problems[:6])
     return True
